@@ -51,7 +51,7 @@ def to_py(v, root=None):
     if t == "dict":
         return {_hashable(to_py(k, root)): to_py(x, root) for k, x in seq(v["kv"])}
     if t == "obj":
-        return {"set": {1, 2}, "object": object(), "complex": 1j}[v["n"]]
+        return {"set": {1, 2}, "object": object(), "complex": 1j, "bytearray": bytearray(b"ab")}[v["n"]]
     raise ValueError("unknown tag %r" % (t,))
 
 
@@ -83,7 +83,10 @@ def to_abs(x, root=None):
         if root is not None and root in x:
             x = x.replace(root, "$")
         return {"t": "str", "s": [UNNAMED.get(c, c) for c in x]}
-    if isinstance(x, (bytes, bytearray)):
+    if isinstance(x, bytearray):
+        # (equal to the bytes it holds, but a different - mutable - type: never what a field stores)
+        return {"t": "obj", "n": "bytearray"}
+    if isinstance(x, bytes):
         return {"t": "bytes", "y": list(x)}
     if isinstance(x, tuple) and not hasattr(x, "_fields"):
         return {"t": "tuple", "l": [to_abs(i, root) for i in x]}
